@@ -18,6 +18,7 @@ import (
 	"log"
 	"os"
 	"os/exec"
+	"runtime/pprof"
 	"sort"
 	"strconv"
 	"strings"
@@ -361,6 +362,12 @@ func dump(tc testCase, t *transcript) {
 
 // child argument: "seed tier first count"; answer: per case "CASE\t<no>\n" + transcript
 func child(arg string) string {
+	if pf := os.Getenv("C01_CPUPROFILE"); pf != "" { // debugging aid: where does a child spend its time
+		if fh, err := os.Create(pf); err == nil {
+			pprof.StartCPUProfile(fh)
+			defer pprof.StopCPUProfile()
+		}
+	}
 	f := strings.Fields(arg)
 	seed, _ := strconv.ParseUint(f[0], 10, 64)
 	thorough := f[1] == "thorough"
